@@ -363,8 +363,8 @@ func (s *Stub) IsVrfKeyInUse(common.Blake2b256) (bool, common.PoolKeyHash, error
 func (s *Stub) CalculateRewards(common.AdaPots, common.RewardSnapshot, common.RewardParameters) (*common.RewardCalculationResult, error) {
 	return nil, errors.New("stub")
 }
-func (s *Stub) GetAdaPots() common.AdaPots             { return common.AdaPots{} }
-func (s *Stub) UpdateAdaPots(common.AdaPots) error     { return nil }
+func (s *Stub) GetAdaPots() common.AdaPots         { return common.AdaPots{} }
+func (s *Stub) UpdateAdaPots(common.AdaPots) error { return nil }
 func (s *Stub) GetRewardSnapshot(uint64) (common.RewardSnapshot, error) {
 	return common.RewardSnapshot{}, errors.New("stub")
 }
